@@ -81,6 +81,7 @@ fn record(args: &[String]) -> i32 {
     let n = opt_usize(args, "--n", 200);
     let mut out = open_out(args);
     let mut g = Gen::new(yvcommon::util::seed() ^ 0xe2e17);
+    g.loops = false;
     let mut id = 0;
     while id < n {
         let (mut tb, line) = g.case();
